@@ -78,3 +78,21 @@ def sub(*classes):
 
 
 g_RI, g_RF, g_RS, g_RW, g_RV, g_RD, g_RL = sub(RI), sub(RF), sub(RS), sub(RW), sub(RV), sub(RD), sub(RL, RI)
+
+
+@dataclass
+class Pt:
+    lo: Annotated[int, IntRange(5, 6)]
+
+
+@dataclass
+class RD2(Root):
+    """a dependent refinement whose dependency name also occurs inside a nested production placed
+    between the dependency and the dependent field"""
+
+    lo: Annotated[int, IntRange(0, 2)]
+    origin: Pt
+    hi: Annotated[int, Dependent("lo", lambda lo: IntRange(lo, lo + 1))]
+
+
+g_RD2 = sub(RD2)
